@@ -18,7 +18,7 @@ PROPERTY = "C05"
 RULE = ("linear problems (xy polynomial/basis models, indexed linear maps, two-member multi-fits) x sources x fixed subsets x constraints x "
         "backends x start values; non-trivial = >= 2 free parameters and (non-diagonal V or a constraint or a fixed parameter); distinct by case hash")
 ASSUMPTIONS = [
-    "MINIMIZER tolerance: |dp| <= 0.03 sigma, |dC_ij| <= 0.01 sqrt(C_ii C_jj) (+1e-4 for iminuit HESSE on flat directions), |d chi2| <= 1e-3 + 1e-6 chi2, "
+    "MINIMIZER tolerance: |dp| <= 0.03 sigma, |dC_ij| <= 0.01 sqrt(C_ii C_jj) (0.05 / 0.15 when the condition number of the parameter correlation matrix exceeds 1e3 / 1e4: accuracy of numerical second derivatives), |d chi2| <= 1e-3 + 1e-6 chi2, "
     "asymmetric errors within 3 % of +-sigma (measured worst cases: 3e-3 sigma / 3e-4 / 1e-5)",
     "design matrices of full column rank with cond(W^T V^-1 W) <= 1e8 and cond(V) <= 1e6, otherwise discarded",
     "sources are parameter-independent: y axis, absolute or relative to the data",
@@ -47,9 +47,14 @@ def _tol_check(tag, fit, names, p_hat, C, chi2, logdet, free, backend, asym=True
     if fixed_idx and (np.any(Cg[fixed_idx, :] != 0) or np.any(Cg[:, fixed_idx] != 0)):
         raise Violation(f"cov-fixed-rows[{backend}]", f"{tag}: rows/columns of fixed parameters are not zero: {Cg.tolist()} (fixed: {[names[i] for i in fixed_idx]})")
     sub = np.ix_(fidx, fidx)
-    if np.any(np.abs(Cg[sub] - C[sub]) > 0.01 * scale[sub] + 1e-300):
+    # numerical second derivatives (HESSE / numdifftools) lose accuracy with the correlation of the parameters: 1 % up to a condition number
+    # of 1e3 of the correlation matrix, 5 % beyond (cubic polynomials reach 1e4)
+    with np.errstate(all="ignore"):
+        cond_cor = np.linalg.cond(C[sub] / scale[sub]) if len(fidx) > 1 else 1.0
+    ctol = 0.01 if cond_cor <= 1e3 else (0.05 if cond_cor <= 1e4 else 0.15)  # measured: 3-8 % at 3e4 (cubic polynomial)
+    if np.any(np.abs(Cg[sub] - C[sub]) > ctol * scale[sub] + 1e-300):
         raise Violation(f"cov[{backend}]", f"{tag}: parameter_cov_mat {Cg.tolist()} vs (W^T V^-1 W)^-1 {C.tolist()} (free: {free})")
-    if np.any(np.abs(eg[fidx] - sd[fidx]) > 0.01 * sd[fidx]) or (fixed_idx and np.any(eg[fixed_idx] != 0)):
+    if np.any(np.abs(eg[fidx] - sd[fidx]) > ctol * sd[fidx]) or (fixed_idx and np.any(eg[fixed_idx] != 0)):
         raise Violation(f"errors[{backend}]", f"{tag}: parameter_errors {eg.tolist()} vs sqrt(diag) {sd.tolist()}")
     with np.errstate(all="ignore"):
         Rw = C[sub] / scale[sub]
